@@ -52,6 +52,8 @@ def Err.toString : Err → String
 
 instance : ToString Err := ⟨Err.toString⟩
 
+deriving instance DecidableEq for Except
+
 /-- `read_exact` of `n` bytes from a slice reader: the bytes read and the rest, or `eof`
 (nothing is consumed on failure as far as a caller can tell, since decoding stops). -/
 def readN (n : Nat) (bs : Bytes) : Except Err (Bytes × Bytes) :=
